@@ -18,6 +18,7 @@ pub fn dispatch(op: &str, f: &Fields) -> String {
         "rt" => rt(f),
         "hist" => hist(f),
         "structcmp" => structcmp(f),
+        "crash" => crash(f),
         _ => format!("harness-error unknown-op {}", op),
     }
 }
@@ -873,4 +874,112 @@ pub fn structcmp(f: &Fields) -> String {
             )
         }
     }
+}
+
+/// C14: stop before finalize, then decode every requested prefix of what reached the stream.
+/// Fields as `wr` (without fault injection); `cuts=all` (every byte), `cuts=calls` (after every
+/// underlying write call) or an explicit list.  Per cut: `cut:delivered:status:match`.
+pub fn crash(f: &Fields) -> String {
+    let mut g = f.clone();
+    g.insert("fin".to_string(), "0".to_string());
+    g.insert("log".to_string(), "1".to_string());
+    let (res, io, prefin) = wr_inner_keep(&g);
+    if let Err(e) = res {
+        return format!("err {} stage=write", e);
+    }
+    let s = match prefin {
+        Some(s) => s,
+        None => return "harness-error no-prefinalize-snapshot".to_string(),
+    };
+    let ch = num::<u8>(f, "ch", 1).max(1) as usize;
+    let pcm = ints::<i32>(get(f, "pcm"));
+    // frame boundaries of S (walk until the data runs out)
+    let mut ends: Vec<usize> = Vec::new();
+    let mut lens: Vec<usize> = Vec::new();
+    let mut metalen = 0usize;
+    if let Ok(it) = flac_codec::stream::FrameIterator::new(Cursor::new(s.clone())) {
+        metalen = it.metadata_len() as usize;
+        let mut cur = Cursor::new(s[metalen..].to_vec());
+        let si = it.metadata().streaminfo().clone();
+        loop {
+            match flac_codec::stream::Frame::read(&mut cur, &si) {
+                Ok(fr) => {
+                    ends.push(metalen + cur.position() as usize);
+                    lens.push(u16::from(fr.header.block_size) as usize);
+                }
+                Err(_) => break,
+            }
+        }
+    }
+    let cuts: Vec<usize> = match get(f, "cuts") {
+        "all" | "" => (0..=s.len()).collect(),
+        "calls" => {
+            let st = io.0.borrow();
+            let mut v: Vec<usize> = st.log.iter().filter(|(k, _, _)| *k == 'w').map(|(_, _, l)| (*l).min(s.len())).collect();
+            v.push(s.len());
+            v.sort();
+            v.dedup();
+            v
+        }
+        list => ints::<usize>(list),
+    };
+    let reader = get(f, "reader");
+    let mut items: Vec<String> = Vec::new();
+    for cut in cuts {
+        let p = s[..cut.min(s.len())].to_vec();
+        let (delivered, status): (Vec<i32>, String) = match reader {
+            "chan" => match FlacChannelReader::new(Cursor::new(p)) {
+                Err(e) => (vec![], format!("openerr:{}", errclass(&e))),
+                Ok(mut r) => {
+                    let mut out: Vec<i32> = Vec::new();
+                    loop {
+                        match r.fill_buf() {
+                            Ok(chs) => {
+                                let n = chs.first().map(|c| c.len()).unwrap_or(0);
+                                if n == 0 {
+                                    break (out, "ok".to_string());
+                                }
+                                for i in 0..n {
+                                    for c in &chs {
+                                        out.push(c[i]);
+                                    }
+                                }
+                                r.consume(n);
+                            }
+                            Err(e) => break (out, format!("err:{}", errclass(&e))),
+                        }
+                    }
+                }
+            },
+            _ => match FlacSampleReader::new(Cursor::new(p)) {
+                Err(e) => (vec![], format!("openerr:{}", errclass(&e))),
+                Ok(mut r) => {
+                    let mut out: Vec<i32> = Vec::new();
+                    let mut buf = vec![0i32; 4096];
+                    loop {
+                        match r.read(&mut buf) {
+                            Ok(0) => break (out, "ok".to_string()),
+                            Ok(n) => out.extend_from_slice(&buf[..n]),
+                            Err(e) => break (out, format!("err:{}", errclass(&e))),
+                        }
+                    }
+                }
+            },
+        };
+        let m = delivered.len() <= pcm.len() && delivered[..] == pcm[..delivered.len()];
+        items.push(format!("{}:{}:{}:{}", cut, delivered.len() / ch, status.split(':').next().unwrap_or(""), if m { 1 } else { 0 }));
+    }
+    format!(
+        "ok slen={} metalen={} ends={} lens={} s={} cutres={}",
+        s.len(),
+        metalen,
+        join(ends.iter()),
+        join(lens.iter()),
+        hex(&s),
+        if items.is_empty() { "-".to_string() } else { items.join(",") }
+    )
+}
+
+fn wr_inner_keep(f: &Fields) -> (Result<(), String>, Shared, Option<Vec<u8>>) {
+    wr_inner(f)
 }
